@@ -25,15 +25,6 @@ def corrMap (kind : String) (mask data : Int → Int → Rat) (h w y x : Int) : 
   lsum ((irange h).map fun my => lsum ((irange w).map fun mx =>
     mask my mx * data ((ky - my) % h) ((kx - mx) % w)))
 
-/-- index of the first maximum of a non-empty list (`np.argmax`) -/
-def argmaxFirst : List Rat → Nat
-  | [] => 0
-  | x :: t =>
-    let rec go (best : Rat) (bi : Nat) (i : Nat) : List Rat → Nat
-      | [] => bi
-      | y :: t => if best < y then go y i (i + 1) t else go best bi (i + 1) t
-    go x 0 1 t
-
 structure EvalOut where
   cy : Int
   cx : Int
